@@ -13,12 +13,13 @@ mod eng_rid;
 mod types;
 mod exec_world;
 mod eng_cache;
+mod eng_load;
 
 use common::*;
 use std::{fs, io::Write, path::PathBuf};
 
 fn engines() -> Vec<Box<dyn Engine>> {
-    vec![Box::new(eng_rid::RidEngine::default()), Box::new(eng_cache::CacheEngine::default())]
+    vec![Box::new(eng_rid::RidEngine::default()), Box::new(eng_cache::CacheEngine::default()), Box::new(eng_load::LoadEngine::default())]
 }
 
 fn main() {
